@@ -158,7 +158,7 @@ func schedCmd(args []string) error {
 	inputs = append(inputs, corpus.Erroneous(seed)...)
 	for ii, in := range inputs {
 		base := corpus.Run(in.Entry, bytes.NewReader(in.Data))
-		if base.Panic != "" || (base.Err != "" && ii < nAccepted) {
+		if base.Panic != "" || (base.Err != "" && ii < nAccepted && !corpus.Rejected[in.Name]) {
 			close(jobs)
 			return fmt.Errorf("corpus input %s is not accepted all-at-once: %s%s", in.Name, base.Err, base.Panic)
 		}
